@@ -6,8 +6,12 @@ with constant keys such as {"$ref": "#/definitions/MetaModel", **schema}), read 
 Calls of module-level helper functions of __main__.py are FOLLOWED: the helper's body is spliced in at the call (parameters
 replaced by the argument expressions, its locals renamed apart, `return e` at its end bound to the call's target), so the
 order of side effects is that of the program; a list comprehension bound to a name is read as the loop it abbreviates.
+`with P.open(..) as F: X = json.load(F)` is read as `X = json.load(P.open(..))` (see open_with_to_load for the conditions and why
+closing the stream earlier or later does not matter to what is extracted here).
 Fail-closed: an unknown call in main, a conditional / swallowed validation, another way of validating, a helper with an
-early return / nested function / star-arguments / recursion -> exit 3.
+early return / nested function / star-arguments / DECORATOR (functools.lru_cache on a loading helper is not transparent: a later
+call in the same process would skip reading and validating the file - the process-history stream of the check exhibits it) /
+recursion, any other `with` -> exit 3.
 usage: x_main.py <out.v> [<info.json>]
 """
 import ast
@@ -212,6 +216,63 @@ class Inliner:
         return out
 
 
+# ------------------------------------------------------------------------------------------------ with P.open(..) as F: X = json.load(F)
+# Grammar extension: the statement
+#       with P.open(<constants>) as F:
+#           [LOGGER.<level>(...)]  X = json.load(F)  [LOGGER.<level>(...)]
+# (P, F, X names; exactly one json.load(F); F mentioned nowhere else in main after inlining) is read as
+#       [LOGGER...]  X = json.load(P.open(<constants>))  [LOGGER...]
+# which is the form the grammar below already understands (schema_expr for the schema file, the validation loop for a model file).
+# Soundness: for the stream objects `open` returns (pathlib.Path / importlib Traversable, the same trust as for the bare
+# `json.load(P.open(..))` form) __enter__ returns the stream itself and __exit__ closes it and returns None, i.e. it never swallows
+# an exception.  So both forms bind X to the same parsed value or raise the same exception at the same point of main; they differ
+# only in WHEN the stream is closed, which none of the three effects (validate, create, plugin) nor the schema object depends on.
+# Requiring a single json.load(F) matters (a second read of the same stream would see EOF, a second P.open() would not); requiring
+# that F is not used elsewhere matters (after the rewrite F is not bound).  Any other `with` is left alone and REJECTED below
+# (another context manager may swallow exceptions - contextlib.suppress around the validation would open the gate).
+def _const_args(call):
+    return all(isinstance(a, ast.Constant) for a in call.args) and all(k.arg is not None and isinstance(k.value, ast.Constant) for k in call.keywords)
+
+
+def _is_logger(st):
+    return isinstance(st, ast.Expr) and isinstance(st.value, ast.Call) and U(st.value.func).startswith("LOGGER.")
+
+
+def open_with_to_load(stmts, root=None):
+    """rewrite the `with` form above wherever it occurs in the statement list (recursively)"""
+    root = stmts if root is None else root
+    uses = {}
+    for st in root:
+        for n in ast.walk(st):
+            if isinstance(n, ast.Name):
+                uses[n.id] = uses.get(n.id, 0) + 1
+    out = []
+    for st in stmts:
+        if isinstance(st, ast.With) and len(st.items) == 1 and isinstance(st.items[0].optional_vars, ast.Name):
+            ce, f = st.items[0].context_expr, st.items[0].optional_vars.id
+            if (isinstance(ce, ast.Call) and isinstance(ce.func, ast.Attribute) and ce.func.attr == "open" and isinstance(ce.func.value, ast.Name)
+                    and ce.func.value.id != f and _const_args(ce)):
+                loads = [b for b in st.body if isinstance(b, ast.Assign) and len(b.targets) == 1 and isinstance(b.targets[0], ast.Name)
+                         and b.targets[0].id not in (f, ce.func.value.id) and isinstance(b.value, ast.Call) and U(b.value.func) == "json.load"
+                         and len(b.value.args) == 1 and not b.value.keywords and isinstance(b.value.args[0], ast.Name) and b.value.args[0].id == f]
+                others = [b for b in st.body if b not in loads]
+                inside = sum(1 for n in ast.walk(st) if isinstance(n, ast.Name) and n.id == f)
+                if len(loads) == 1 and all(_is_logger(b) for b in others) and inside == 2 and uses.get(f) == 2:
+                    for b in st.body:
+                        if b is loads[0]:
+                            b = ast.parse("%s = json.load(%s)" % (b.targets[0].id, U(ce))).body[0]
+                        out.append(ast.copy_location(b, st))
+                    continue
+        for fld in ("body", "orelse", "finalbody"):
+            if isinstance(getattr(st, fld, None), list) and not isinstance(st, (ast.FunctionDef, ast.ClassDef)):
+                setattr(st, fld, open_with_to_load(getattr(st, fld), root))
+        if isinstance(st, ast.Try):
+            for h in st.handlers:
+                h.body = open_with_to_load(h.body, root)
+        out.append(st)
+    return [ast.fix_missing_locations(x) for x in out]
+
+
 NOT_FOLLOWED = {"main", "get_parser", "setup_logging", "custom_plugin"}       # their calls are judged by name (HARMLESS)
 
 
@@ -223,7 +284,7 @@ def translate():
         raise Reject("main not found exactly once")
     fn = mains[0]
     inl = Inliner(tree, NOT_FOLLOWED)
-    main_body = inl.block([s for s in fn.body if not (isinstance(s, ast.Expr) and isinstance(s.value, ast.Constant))])
+    main_body = open_with_to_load(inl.block([s for s in fn.body if not (isinstance(s, ast.Expr) and isinstance(s.value, ast.Constant))]))
     translate.followed = inl.followed
     env, effects, state = {}, [], {"models_list": None, "spec": None, "validated_from": None, "unvalidated_appends": set()}
 
